@@ -2,8 +2,8 @@
    For EVERY well-formed plan, EVERY oracle (which in-flight process exits next, with which code,
    which launches fail), every jobs >= 1 and both settings of --stop-early. *)
 From Coq Require Import List Arith Bool NArith.
-From Conductor Require Import Model.Loader Model.Planner Model.Exec
-  Proofs.ExecInv Proofs.ExecTheorems Proofs.ExecMain.
+From Conductor Require Import Model.Loader Model.Planner Model.Exec Model.RunCase
+  Proofs.ExecInv Proofs.ExecTheorems Proofs.ExecMain Proofs.LoaderProofs Proofs.Compose.
 Import ListNotations.
 
 (* progress: every iteration of the main loop launches, skips or completes an operation, so the
@@ -57,6 +57,19 @@ Definition ex_plan : plan :=
                 {| op_task := 0; op_exe_deps := [0; 1]; op_par := false; op_sync := true |} ];
      p_initial := [0; 1]; p_cached := []; p_num := 3 |}.
 Definition ex_orc : oracle := {| launch_fails := fun _ => false; rc_of := fun _ => 0%N; pick := fun _ => 1 |}.
+(* The whole pipeline, end to end: on a finite project (V: any duplicate-free set of task
+   identifiers containing the root and closed under declared dependencies) the loader's traversal,
+   the planner's lowering loop and the executor's main loop ALL end by themselves within
+   [run_fuel tasks V] iterations, for every oracle: `cond run` ends with a load error naming a
+   defect or with a complete run and its report -- never by running out of steps. *)
+Theorem C09_pipeline_terminates :
+  forall tasks c V fuel,
+  finite_project (graph_of tasks) (c_root c) V -> 1 <= c_jobs c -> run_fuel tasks V <= fuel ->
+  (exists r, cond_run fuel tasks c = OLoadError r /\ r <> OutOfFuel /\ forall v, r <> Ok v) \/
+  (exists loaded ps evs, cond_run fuel tasks c = ORun loaded ps (Some evs)).
+Proof. exact cond_run_terminates. Qed.
+Print Assumptions C09_pipeline_terminates.
+
 Example C09_nonvacuous :
   run_plan ex_plan 2 false ex_orc 7 0 =
   Some [EStart 0 (Some 0); EStart 1 (Some 1); EFinish 1 0; EFinish 0 0; EStart 2 None; EFinish 2 0; EKill []; EDone].
